@@ -114,11 +114,14 @@ func (r *Runner) fillExpandConfig(ctx context.Context) {
 				exit: new(exitStatus),
 			}
 			r.bgProcs = append(r.bgProcs, bg)
+			verifYield("procsubst:before-go")
 			go func() {
 				defer func() {
+					verifYield("procsubst:before-done")
 					*bg.exit = r2.exit
 					close(bg.done)
 				}()
+				verifYield("procsubst:goroutine-start")
 				switch ps.Op {
 				case syntax.CmdIn:
 					f, err := os.OpenFile(path, os.O_WRONLY, 0)
@@ -329,12 +332,16 @@ func (r *Runner) stmt(ctx context.Context, st *syntax.Stmt) {
 			exit: new(exitStatus),
 		}
 		r.bgProcs = append(r.bgProcs, bg)
+		verifYield("background:before-go")
 		go func() {
+			verifYield("background:goroutine-start")
 			r2.Run(ctx, &st2)
 			r2.exit.exiting = false // subshells don't exit the parent shell
+			verifYield("background:before-done")
 			*bg.exit = r2.exit
 			close(bg.done)
 		}()
+		verifYield("background:after-go")
 	} else {
 		r.stmtSync(ctx, st)
 	}
@@ -525,12 +532,16 @@ func (r *Runner) cmd(ctx context.Context, cm syntax.Command) {
 			r.stdin = pr
 			var wg sync.WaitGroup
 			wg.Go(func() {
+				verifYield("pipeline:left-start")
 				r2.stmt(ctx, cm.X)
 				r2.exit.exiting = false // subshells don't exit the parent shell
+				verifYield("pipeline:left-before-close")
 				pw.Close()
 			})
+			verifYield("pipeline:right-start")
 			r.stmt(ctx, cm.Y)
 			pr.Close()
+			verifYield("pipeline:before-wait")
 			wg.Wait()
 			r.stdin = oldIn
 			if r.opts[optPipeFail] && !r2.exit.ok() && r.exit.ok() {
@@ -980,6 +991,7 @@ func (r *Runner) hdocReader(rd *syntax.Redirect) (stdinFile, error) {
 	// We still construct and buffer the entire heredoc first,
 	// as doing it concurrently would lead to different semantics and be racy.
 	go func() {
+		verifYield("heredoc:writer-start")
 		io.WriteString(pw, hdoc)
 		pw.Close()
 	}()
@@ -1091,6 +1103,7 @@ func (r *Runner) redir(ctx context.Context, rd *syntax.Redirect) (io.Closer, err
 		// We write to the pipe in a new goroutine,
 		// as pipe writes may block once the buffer gets full.
 		go func() {
+			verifYield("herestring:writer-start")
 			io.WriteString(pw, arg)
 			io.WriteString(pw, "\n")
 			pw.Close()
